@@ -28,6 +28,7 @@ type boolEval struct {
 	token   func(ssa.Value) string                // "" = not a recognised comparand
 	assume  func(ssa.Value) (val string, ok bool) // optional: fixed result for selected values
 	choice  string                                // token the subject equals ("other" = none of them)
+	domain  map[string]bool                       // optional: the tokens "other" stands apart from (every choice the rule tries); needed to decide a table lookup for "other"
 
 	outcomes map[string]bool
 	forks    map[string]bool // descriptors of undecided conditions that were forked
@@ -157,6 +158,21 @@ func (e *boolEval) eval(v ssa.Value, preds map[*ssa.BasicBlock]*ssa.BasicBlock, 
 					return bFalse
 				}
 			}
+			if bt, isB := x.X.Type().Underlying().(*types.Basic); other == nil && isB && bt.Info()&types.IsBoolean != 0 {
+				// comparison of two decided booleans (`m[s] == false`, `ok != true`)
+				l, r := e.eval(x.X, preds, d+1), e.eval(x.Y, preds, d+1)
+				if (l == bTrue || l == bFalse) && (r == bTrue || r == bFalse) {
+					if (x.Op == token.EQL) == (l == r) {
+						return bTrue
+					}
+					return bFalse
+				}
+			}
+		}
+	case *ssa.Lookup, *ssa.Extract:
+		// the subject looked up in a provably constant package-level map (a table that replaces a switch)
+		if r, ok := e.tableLookup(v); ok {
+			return r
 		}
 	case *ssa.Phi:
 		if p, ok := preds[x.Block()]; ok {
